@@ -14,10 +14,10 @@ use std::str::FromStr;
 
 pub fn lanes() -> Vec<Lane> {
     vec![
-        Lane { name: "paragraph", count: |c| if c.thorough() { 600_000 } else { 40_000 }, run: para_lane },
-        Lane { name: "document", count: |c| if c.thorough() { 400_000 } else { 30_000 }, run: doc_lane },
+        Lane { name: "paragraph", count: |c| if c.thorough() { 1_000_000 } else { 100_000 }, run: para_lane },
+        Lane { name: "document", count: |c| if c.thorough() { 800_000 } else { 80_000 }, run: doc_lane },
         Lane { name: "entry", count: |c| if c.thorough() { 200_000 } else { 15_000 }, run: entry_lane },
-        Lane { name: "control", count: |c| if c.thorough() { 200_000 } else { 15_000 }, run: control_lane },
+        Lane { name: "control", count: |c| if c.thorough() { 400_000 } else { 40_000 }, run: control_lane },
     ]
 }
 
